@@ -107,7 +107,8 @@ def irregular_record_scenarios(bases=None):
     duplicated day, rows dropped without re-indexing): the simulated days must still get the record carrying their date."""
     bases = bases or A.WATER_BASES
     for bi in (0, 3, 8):
-        for extra in ({"lead": 400, "drop_lead_rows": [100, 131]}, {"lead": 400, "dup_lead_row": 37}, {"lead": 400, "keep_labels_from": 150}, {"lead": 120, "trail": 60, "drop_lead_rows": [5, 6]}):
+        for extra in ({"lead": 400, "drop_lead_rows": [100, 131]}, {"lead": 400, "dup_lead_row": 37}, {"lead": 400, "keep_labels_from": 150}, {"lead": 120, "trail": 60, "drop_lead_rows": [5, 6]},
+                      {"lead": 400, "index_style": "concat"}, {"lead": 120, "trail": 500, "index_style": "yearly"}):
             yield {"kind": "config", "base": bi, "config": dict(bases[bi]), "weather_extra": extra}
 
 
